@@ -197,7 +197,7 @@ func c09Routes() []routeCase {
 func runC09(tier string, _ []string) int {
 	c := vlib.NewCtx("C09", tier, "exploration")
 	vlib.SetPortBlock(9)
-	c.SetRule("part A: an instance configured with an auth token; methods x node routes (/v1/nodes, /:id, /points, /samples, /parents, /not, unknown; path-cleaning variants) x 27 Authorization values (absent, empty, the token and near misses, Bearer variants, the instance's JWT, JWTs minted with the instance key read from the store file: other key, empty key, HS384, HS512, none, expired, payload-tampered, truncated, unsigned, garbage; plus a token used while valid and again after its expiry) x bodies; then all credentials at once from 12 goroutines (each answer must be the one its own credential deserves); each probe targets a fresh id and an existing node; monitor: status 401 for every non-credential, no bus message mentioning the probe id on a '>' tap, tree dump unchanged; credentials must be served; NATS TCP and WebSocket connects without / with a wrong token must fail. part A2: the same forged-token probes (tokens signed with an empty / zero key) against an instance restarted on a store whose first start was killed just before the signing key was written (real crash of a writer process at the sqlite.initJwtKey.beforeWrite site). part B: user placements (created, moved, mirrored, deleted, re-added, under a deleted group, two users with one e-mail, wrong password) vs /v1/auth: token issued exactly when the model finds a live path to the root; the node listing for the issued token is a subset of the subtrees of the user's live placements. distinct = (credential, route kind, outcome) / (placement scenario, model verdict)")
+	c.SetRule("part A: an instance configured with an auth token; methods x node routes (/v1/nodes, /:id, /points, /samples, /parents, /not, unknown; path-cleaning variants) x 27 Authorization values (absent, empty, the token and near misses, Bearer variants, the instance's JWT, JWTs minted with the instance key read from the store file: other key, empty key, HS384, HS512, none, expired, payload-tampered, truncated, unsigned, garbage; plus a token used while valid and again after its expiry) x bodies; then all credentials at once from 12 goroutines (each answer must be the one its own credential deserves); each probe targets a fresh id and an existing node; monitor: status 401 for every non-credential, no bus message mentioning the probe id on a '>' tap, tree dump unchanged; credentials must be served; NATS TCP and WebSocket connects without / with a wrong token must fail. part A2: the same forged-token probes (tokens signed with an empty / zero key) against an instance restarted on a store whose first start was killed just before the signing key was written (real crash of a writer process at the sqlite.initJwtKey.beforeWrite site). part B: user placements (created, moved, mirrored, deleted, re-added, under a deleted group, two users with one e-mail, wrong password) vs /v1/auth, asked after every single step of a scenario and at its end: token issued exactly when the model finds a live path to the root; the node listing for the issued token is a subset of the subtrees of the user's live placements. distinct = (credential, route kind, outcome) / (placement scenario, model verdict)")
 	c.Assume("'open' header forms (whitespace around the token, lower-case scheme) are only required to leave no trace if answered 401")
 	cl := &http.Client{Timeout: 30 * time.Second}
 
@@ -619,10 +619,31 @@ func runC09(tier string, _ []string) int {
 				return
 			}
 			var serr error
+			midBad := ""
 			step := func(e error) {
 				if serr == nil {
 					serr = e
 				}
+				if serr != nil || midBad != "" {
+					return
+				}
+				// the verdict after every single change, not only after the last one (a verdict or a path
+				// remembered from an earlier request must not outlive the change that invalidates it)
+				want := false
+				for _, ur := range users {
+					if ur.email == email && ur.pass == tryPass && d.g.LiveUnderRoot(ur.id) {
+						want = true
+					}
+				}
+				st, tok, err := login(cl, base, email, tryPass)
+				c.Eval(1)
+				if err != nil {
+					return
+				}
+				if got := st == 200 && tok != ""; got != want {
+					midBad = fmt.Sprintf("after step %d of scenario %s: login answered %d (token issued=%v), the model says connected=%v", len(d.Log), sc, st, tok != "", want)
+				}
+				c.Count("login_verdicts_between_steps", 1)
 			}
 			u, e := mkUser(g1, email, pass)
 			step(e)
@@ -695,6 +716,11 @@ func runC09(tier string, _ []string) int {
 			}
 			if serr != nil {
 				c.Violate("store:legal-write-refused", serr.Error(), map[string]any{"scenario": sc, "ops": d.Log})
+				return
+			}
+			if midBad != "" {
+				sig := "auth:login-verdict-wrong-between-steps:" + sc
+				c.Violate(sig, midBad, map[string]any{"scenario": sc, "ops": d.Log, "edges": d.g.EdgeKeys()})
 				return
 			}
 			// model verdict
